@@ -2,23 +2,29 @@
 """seedstore.py <PROP> <n> [<extra check props>...]  : verifies /tmp/seed_<PROP>/out/change<n>.* with tools/seedverify.sh
 and, if confirmed (demo passes without / fails with, build + unit tests ok), stores it as /verif/seeded/<PROP>-<n>/."""
 import json, os, shutil, subprocess, sys
-prop, n = sys.argv[1], sys.argv[2]
-checks = [prop] + sys.argv[3:]
-sd = "/tmp/seed_%s" % prop
+args = [a for a in sys.argv[1:] if not a.startswith("--round=")]
+rnd = 1
+for a in sys.argv[1:]:
+    if a.startswith("--round="):
+        rnd = int(a.split("=")[1])
+prop, n = args[0], args[1]
+checks = [prop] + args[2:]
+sd = "/tmp/seed%s_%s" % ("" if rnd == 1 else str(rnd), prop)
+sid = str(int(n) + 2 * (rnd - 1))
 p = subprocess.run(["/verif/tools/seedverify.sh", sd, n] + checks, capture_output=True, text=True)
 out = p.stdout.strip().splitlines()
 print("\n".join(out[-10:-1]))
 res = json.loads(out[-1])
 confirmed = res["apply"] == 0 and res["demo_without_exit"] == 0 and res["demo_with_exit"] != 0 and res["build_exit"] == 0 and res["unit_exit"] == 0
 res["confirmed"] = confirmed
-dst = "/verif/seeded/%s-%s" % (prop, n)
+dst = "/verif/seeded/%s-%s" % (prop, sid)
 if confirmed:
     os.makedirs(dst, exist_ok=True)
     shutil.copy(os.path.join(sd, "out", "change%s.diff" % n), os.path.join(dst, "patch.diff"))
     shutil.copy(os.path.join(sd, "out", "change%s_demo_test.go" % n), os.path.join(dst, "demo_test.go.txt"))
     md = open(os.path.join(sd, "out", "change%s.md" % n)).read() if os.path.exists(os.path.join(sd, "out", "change%s.md" % n)) else ""
     meta = {
-        "id": "%s-%s" % (prop, n),
+        "id": "%s-%s" % (prop, sid), "round": rnd,
         "breaks_property": prop,
         "needs_to_manifest": md.strip(),
         "demonstration": {"file": "demo_test.go.txt", "place_at": res["place"], "run": res["run"],
@@ -27,4 +33,4 @@ if confirmed:
         "checks_run": {k: {"exit": v["exit"], "detected": v["exit"] == 1, "signatures": [s for s in v["signatures"].split(",") if s]} for k, v in res["checks"].items()},
     }
     json.dump(meta, open(os.path.join(dst, "meta.json"), "w"), indent=1)
-print(json.dumps({"seed": "%s-%s" % (prop, n), "confirmed": confirmed, "checks": {k: v["exit"] for k, v in res["checks"].items()}}))
+print(json.dumps({"seed": "%s-%s" % (prop, sid), "confirmed": confirmed, "checks": {k: v["exit"] for k, v in res["checks"].items()}}))
